@@ -10,6 +10,10 @@ Extracted (fail closed: any AST shape not listed here raises TranslateError):
           `value = type(old_value)(value)`                                   -> CoerceByType
           `if <old_value is a bool>: value = _str_to_bool(value) else: ...`  -> CoerceBoolHelper
       - _str_to_bool: the tuple of strings that mean False; key_to_option: '-' -> '_'
+      - read_configuration_file, the file that is read when none is passed: the list of candidate paths of
+          `for fp in [<'~/...' literals>]: fp = path.expanduser(fp); if path.exists(fp): <open it; on IOError no
+           configuration>; break  else: <no configuration>`  followed by one `config.read_file(fp)`
+        (the first existing candidate, only that one)                        -> rc_candidates
   * jug/subcommands/*.py: every SubCommand subclass (name, parse, parse_defaults)
 
 `table()` returns the same information as Python data for the harness (generators only)."""
@@ -368,6 +372,86 @@ def read_coercion(tree):
                          '`_str_to_bool` shape: %s' % _src(inner)[:200])
 
 
+DISCOVERY_SHAPE = """if fp is None:
+    from os import path
+    for fp in %s:
+        fp = path.expanduser(fp)
+        if path.exists(fp):
+            try:
+                fp = open(fp)
+            except IOError:
+                return inifile
+            break
+    else:
+        return inifile"""
+READER_SHAPE = ['inifile = Options(default_options)', None, 'import configparser', 'config = configparser.RawConfigParser()',
+                'config.read_file(fp)', 'fp.close()', None, 'return inifile']
+
+
+def _candidate_paths(strings, node=None):
+    out = []
+    for c in strings:
+        _check_ascii(c, node)
+        if not c.startswith('~/') or c.endswith('/') or '//' in c or '/../' in c + '/' or '/./' in c + '/':
+            _err(node, 'candidate configuration file %r is not a plain path under the home directory' % (c,))
+        out.append(c)
+    if not out or len(set(out)) != len(out):
+        _err(node, 'the list of candidate configuration files is empty or has duplicates')
+    return out
+
+
+def read_discovery(tree):
+    """The candidate paths, in priority order, of which read_configuration_file reads the FIRST existing one
+    (and nothing else).  Any other shape of the function (e.g. one that reads several files) is not understood."""
+    f = _func(tree, 'read_configuration_file')
+    if [a.arg for a in f.args.args] != ['fp', 'default_options'] or f.args.vararg or f.args.kwarg or f.args.kwonlyargs:
+        raise TranslateError('read_configuration_file signature changed')
+    body = [st for st in f.body if not _is_docstring(st)]
+    if len(body) != len(READER_SHAPE):
+        raise TranslateError('read_configuration_file: %d top-level statements, expected %d' % (len(body), len(READER_SHAPE)))
+    for st, want in zip(body, READER_SHAPE):
+        if want is not None and _src(st) != want:
+            _err(st, 'read_configuration_file: statement %r where %r is expected' % (_src(st)[:60], want))
+    disc, loop = body[1], body[6]
+    if not (isinstance(loop, ast.For) and _src(loop.target) == 'section' and _src(loop.iter) == 'config.sections()'
+            and not loop.orelse and len(loop.body) == 1 and isinstance(loop.body[0], ast.For)):
+        _err(loop, 'read_configuration_file: the loop over config.sections() is not recognised')
+    if not (isinstance(disc, ast.If) and not disc.orelse and len(disc.body) == 2 and isinstance(disc.body[1], ast.For)
+            and isinstance(disc.body[1].iter, (ast.List, ast.Tuple))):
+        _err(disc, 'read_configuration_file: the search for the configuration file is not the recognised loop')
+    lst = disc.body[1].iter
+    if not all(isinstance(e, ast.Constant) and isinstance(e.value, str) for e in lst.elts):
+        _err(lst, 'read_configuration_file: candidate paths must be string literals')
+    if _src(disc) != DISCOVERY_SHAPE % _src(lst):
+        _err(disc, 'read_configuration_file: the search for the configuration file is not '
+                   '"open the first candidate that exists, read only that one"')
+    return _candidate_paths([e.value for e in lst.elts], lst)
+
+
+def read_discovery_lenient(tree):
+    """Only for the failing-input search: every '~/...' string literal of read_configuration_file, in source order."""
+    try:
+        f = _func(tree, 'read_configuration_file')
+    except TranslateError:
+        return []
+    found = []
+    for st in f.body:
+        if _is_docstring(st):
+            continue
+        for n in ast.walk(st):
+            if isinstance(n, ast.Constant) and isinstance(n.value, str) and n.value.startswith('~/'):
+                found.append((n.lineno, n.col_offset, n.value))
+    out = []
+    for _, _, v in sorted(found):
+        try:
+            _candidate_paths([v])
+        except TranslateError:
+            continue
+        if v not in out:
+            out.append(v)
+    return out
+
+
 def read_false_strings(tree):
     f = _func(tree, '_str_to_bool')
     body = [st for st in f.body if not _is_docstring(st)]
@@ -503,17 +587,23 @@ def table(lenient=False):
             check_key_to_option(tree)
         except TranslateError:
             pass
+        try:
+            candidates = read_discovery(tree)
+        except TranslateError:
+            candidates = read_discovery_lenient(tree)
     else:
         coerce = read_coercion(tree)
         falses = read_false_strings(tree)
         check_key_to_option(tree)
+        candidates = read_discovery(tree)
     subs, specific, sub_defaults, defaults_of = read_subcommands()
     for e in common + extras + specific:
         if e['action'] == 'version':
             raise TranslateError('a version action on a subparser is not modelled')
     return {'subcommands': sorted(n for n, _ in subs), 'modules': dict(subs), 'subdest': subdest, 'top': top,
             'specific': specific, 'common': common + extras, 'main_defaults': main_defaults,
-            'sub_defaults': sub_defaults, 'defaults_of': defaults_of, 'coerce': coerce, 'false_strings': falses}
+            'sub_defaults': sub_defaults, 'defaults_of': defaults_of, 'coerce': coerce, 'false_strings': falses,
+            'rc_candidates': candidates}
 
 
 def coq_entry(e):
@@ -554,5 +644,7 @@ def option_table():
            '  t_sub_defaults := %s;' % _coq_list(['(%s, %s)' % (coq_str(k), coq_val(v)) for k, v in t['sub_defaults']]),
            '  t_coerce := %s;' % t['coerce'],
            '  t_false_strings := [%s]' % '; '.join(coq_str(s) for s in t['false_strings']),
-           '|}.', '']
+           '|}.', '',
+           '(* read_configuration_file(None): the first of these that exists is read, only that one *)',
+           'Definition rc_candidates : list string := [%s].' % '; '.join(coq_str(s) for s in t['rc_candidates']), '']
     return '\n'.join(out)
